@@ -22,6 +22,8 @@ DEVICE_MAC = 5
 TESTER_MAC = 9
 DEVICE_IP = "192.168.1.5/24"
 TESTER_TUPLE = ("192.168.1.9", 47808)
+TESTER2_MAC = 8
+TESTER2_TUPLE = ("192.168.1.8", 47808)
 DEVICE_TUPLE = ("192.168.1.5", 47808)
 
 
@@ -104,12 +106,12 @@ class Device(object):
         vclock.settle()
         self.baseline_tasks = len(vclock.pending_tasks())
 
-    def inject(self, octets, settle=True):
-        """Put raw octets on the wire toward the device, as sent by the tester station."""
+    def inject(self, octets, settle=True, other=False):
+        """Put raw octets on the wire toward the device, as sent by the tester station (other=True: by a second station)."""
         if self.level == "lan":
-            pdu = PDU(octets, source=Address(TESTER_MAC), destination=Address(DEVICE_MAC))
+            pdu = PDU(octets, source=Address(TESTER2_MAC if other else TESTER_MAC), destination=Address(DEVICE_MAC))
         else:
-            pdu = PDU(octets, source=TESTER_TUPLE, destination=DEVICE_TUPLE)
+            pdu = PDU(octets, source=TESTER2_TUPLE if other else TESTER_TUPLE, destination=DEVICE_TUPLE)
         try:
             Network.process_pdu(self.net, pdu)
         except Exception as err:      # mirror of the catch-all of core.run around the delivering task
